@@ -69,6 +69,24 @@ def rule_r1(ctx):
                 r.ob(f, "payload line %s preceded by the %s check" % (s.line, kind))
             else:
                 ctx.fail(r, f, "payload before %s" % kind, s.line, "the frame payload buffer is chosen without evaluating the %s check" % kind)
+    # a frame without payload is a frame: once its header has been decoded (the length switch), the frame is not handed on
+    # (ws_read_frame_cb) in the same pass without the maxframe and mask/role checks having been evaluated
+    done = [c for c in f.calls("ws_read_frame_cb")]
+    if sw and done:
+        for kind in ("len > maxframe", "mask/role"):
+            poss = bykind.get(kind)
+            if not poss:
+                continue
+            for c in done:
+                hit = any(G.reaches(f, (b_, i_ + 1), [(c.b, c.i)], blocked=poss) for (b_, i_) in sw)
+                if hit:
+                    ctx.fail(r, f, "empty frame accepted without the %s check" % kind, c.line,
+                             "from the decoding of the frame length ws_read_cb can reach ws_read_frame_cb (line %s) without "
+                             "evaluating the %s check: it is made only where a payload is expected, so a zero-length frame with "
+                             "the wrong mask bit (an unmasked empty BINARY / CONTINUATION / PING from a client) is accepted "
+                             "instead of closing with 1002" % (c.line, kind))
+                else:
+                    r.ob(f, "ws_read_frame_cb line %s: the %s check is evaluated for frames without payload too" % (c.line, kind))
     for what, b, bad_edge in tests:
         if bad_edge is not None:
             tgt = f.blocks[b].succs[bad_edge]
@@ -733,6 +751,55 @@ def rule_r21(ctx):
         raise AnalysisBroken("no enumerator-keyed lookup table found (nni_http_reason had one)")
 
 
+# ---------------------------------------------------------------------------
+# R22: the terminator of a chunk is checked at its place in the chunk, whatever the last read brought
+
+
+def rule_r22(ctx):
+    r = ctx.rule("C16.R22", "T1", "the terminator of a chunk is checked at its place in the chunk: in chunk_ingest_data the transition "
+                 "out of CS_DATA (c_resid = 0) is reached only over edges that compared c_data[c_size] with CR and "
+                 "c_data[c_size + 1] with LF -- operands addressed by the chunk's own size, not by the number of bytes the "
+                 "current read happened to bring, and under no condition on that number: a check on 'the last two bytes just "
+                 "copied' is skipped when the read that completes the chunk carries one byte, so `hello\\rX` is refused or "
+                 "accepted depending on where the segment boundary fell", floor=1)
+    f = ctx.prog.need("chunk_ingest_data", "http/http_chunk.c")
+    done = [t for t in f.assigns() if G.field_is(t.node["lhs"], "c_resid") and const_of(f.expand(t.node["rhs"])) == 0]
+    if not done:
+        raise AnalysisBroken("chunk_ingest_data: the store c_resid = 0 that completes a chunk vanished")
+
+    def term_at(x, off):
+        while x is not None and x.get("k") == "cast":
+            x = x["e"]
+        if x is None or x.get("k") != "idx":
+            return False
+        base, ix = x["b"], x["i"]
+        while base is not None and base.get("k") == "cast":
+            base = base["e"]
+        if not (base is not None and base.get("k") == "mem" and base["f"] == "c_data"):
+            return False
+        txt = show(ix)
+        has = any(m.get("k") == "mem" and m["f"] == "c_size" for m in walk(ix))
+        plus = any(m.get("k") == "bin" and m.get("op") == "+" and const_of(m["rhs"]) == 1 for m in walk(ix))
+        return has and (plus if off else not plus)
+    need = {}
+    for off, ch, nm in ((0, 13, "CR"), (1, 10, "LF")):
+        ok_edges = {}
+        for bid, k, atom, val in G.edge_facts(f):
+            if atom.get("k") == "bin" and atom["op"] in ("==", "!=") and const_of(atom["rhs"]) == ch and term_at(atom["lhs"], off):
+                if (atom["op"] == "==") == bool(val):
+                    ok_edges[bid] = k
+        need[nm] = ok_edges
+    for t in done:
+        for nm, ok_edges in need.items():
+            if ok_edges and G.dominated(f, (t.b, t.i), ok_edges):
+                r.ob(f, "chunk completed (line %s) only after c_data[c_size%s] == %s" % (t.line, "+1" if nm == "LF" else "", nm))
+            else:
+                ctx.fail(r, f, "chunk completed without the %s of its terminator checked in place" % nm, t.line,
+                         "chunk_ingest_data can set c_resid = 0 (line %s) without having compared the byte at c_data[c_size%s] with "
+                         "%s: whether a malformed chunk terminator is refused then depends on how the stream was cut into reads"
+                         % (t.line, " + 1" if nm == "LF" else "", nm))
+
+
 def run(ctx):
     ctx.guard(rule_r1)
     ctx.guard(rule_r2)
@@ -755,6 +822,7 @@ def run(ctx):
     ctx.guard(rule_r18)
     ctx.guard(rule_r19)
     ctx.guard(rule_r21)
+    ctx.guard(rule_r22)
     from . import c20
     ctx.guard(c20.rule_r25)          # a line that does not parse is refused: its status is not overwritten by the next line's
     for rr in ctx.rules:
